@@ -153,6 +153,16 @@ class Cat(object):
         fut_rw3 = b"x-tahoe-crazy://rw-only.future-WRITE-secret"
         self.secrets.append(("unknown-rw-only", "str", fut_rw3))
         E(("unknown-rw-only", fut_rw3, None))
+        # known WRITE caps that are only ALLEGED read-only / immutable, offered in the read slot: a directory either
+        # refuses to link them or must keep them away from read-cap holders (probes, like unknown-rw-only)
+        for plabel, pcap in (("SSK", w.new_mutable_cap()), ("MDMF", w.new_mutable_cap(mdmf=True)),
+                             ("DIR2", uri.DirectoryURI(w.new_mutable_cap())), ("DIR2-MDMF", uri.MDMFDirectoryURI(w.new_mutable_cap(mdmf=True)))):
+            inner = pcap.get_filenode_cap() if hasattr(pcap, "get_filenode_cap") else pcap
+            for pfx in (b"ro.", b"imm."):
+                lab = "probe:%s%s-writecap" % (pfx.decode(), plabel)
+                self.secrets.append((lab, "key", inner.writekey))
+                self.secrets.append((lab, "str", S(pcap)))
+                E((lab, None, pfx + S(pcap)))
         pairs = []
         for label, kind, sec in self.secrets:
             for n in needles_for(kind, sec):
@@ -381,10 +391,11 @@ def check_case(case, ctx=None):
         for i, ci in enumerate(case["children"]):
             label, rw, ro = cat.entries[ci]
             node = c.create_from_cap(rw, ro)
-            if label == "unknown-rw-only":
+            if label == "unknown-rw-only" or label.startswith("probe:"):
                 probe = mkdir(c, mdmf=False)
                 k0, v0 = try_fire(probe.set_node, "probe", node)
-                stats["unknown_rw_only:" + ("accepted" if k0 == "ok" else "refused")] = stats.get("unknown_rw_only:" + ("accepted" if k0 == "ok" else "refused"), 0) + 1
+                sk = ("unknown_rw_only:" if label == "unknown-rw-only" else "alleged_writecap_probe:") + ("accepted" if k0 == "ok" else "refused")
+                stats[sk] = stats.get(sk, 0) + 1
                 if k0 != "ok":
                     continue        # refused: nothing is stored, nothing to leak
             kids.append(("k%d" % i, node, rw is not None))
